@@ -2458,9 +2458,6 @@ class Driver(object, metaclass=DriverMetaclass):
                                   tr_options=tr_options or {},
                                   jac=jacfun)
 
-        if self._exc_info is not None:
-            self._reraise()
-
         if iprint == 2:
             print()
             print('-------------------------')
@@ -2485,6 +2482,11 @@ class Driver(object, metaclass=DriverMetaclass):
             with SaveOptResult(self):
                 res = f_lsq()
                 self.result.success = res.success and res.cost <= loss_tol
+
+        # an exception raised by the model inside _compute_con_viol was recorded there (and
+        # replaced by a zero violation vector so that scipy could return); surface it now.
+        if self._exc_info is not None:
+            self._reraise()
 
         if iprint >= 1:
             if res.success:
